@@ -24,7 +24,8 @@ starts to call on its sub-patterns is resolved like every other method.
                  only after the is-mapping test (a helper testing Py_TPFLAGS_MAPPING) and a length-tested extraction helper (its C body leaves
                  with "no match" for size < nKeys before it looks at a key) evaluated true - in the expression tree (short-circuit `and`,
                  statement order, result refs, if-clauses) or, when the check is called from inside a C helper, behind the size guard of that
-                 helper.  (deviation: the check ran first; non-mappings and too-short dicts raised ValueError.)
+                 helper; and it is not made to wait for the comparison of a value sub-pattern (CPython checks the keys before it looks at a
+                 value).  (deviation: the check ran first; non-mappings and too-short dicts raised ValueError.)
 
 NOT decided by these rules: whether MatchCaseNode itself evaluates the comparison node (only the pattern classes are evaluated); the order of
 the duplicate check relative to the *presence* test of each key (CPython interleaves them); the wording of the TypeError for more than one
@@ -34,7 +35,6 @@ import ast, builtins, itertools, re
 
 from ..core import Rule, AnalysisError
 from ..engine import cguard
-from ..engine.cutil import split_args, match_paren
 from . import pC17 as P
 from . import sC31 as S
 from .pC28 import NS, OPQ
@@ -100,8 +100,8 @@ class Lab:
                             keyword_pattern_names=[self.name(k) for k, _ in keywords], keyword_pattern_patterns=[p for _, p in keywords],
                             class_known_type=known_type, as_targets=[])
 
-    def subject(self):
-        return S.subject_mock(self.sym)
+    def subject(self, **typeflags):
+        return S.subject_mock(self.sym, **typeflags)
 
     def env(self):
         return NS('env', directives={})
@@ -214,11 +214,13 @@ def _parents(lab):
         ('mapping-value-rest', '{"k": %s, **rest}', lambda ch: lab.mapping([lab.key(True)], [ch], rest='rest')),
         ('class-positional', 'C(%s)', lambda ch: lab.class_([ch], [])),
         ('class-keyword', 'C(a=%s)', lambda ch: lab.class_([], [('a', ch)])),
+        ('class-positional-with-keyword', 'C(%s, a=y)', lambda ch: lab.class_([ch], [('a', lab.capture('y'))])),
+        ('class-keyword-with-positional', 'C(y, a=%s)', lambda ch: lab.class_([lab.capture('y')], [('a', ch)])),
         ('or-last', '(0 as x) | %s', lambda ch: lab.or_([lab.value(as_='x'), ch])),
     ]
 
 
-def rule_tempdef(ctx, sym=None, floor=50):
+def rule_tempdef(ctx, sym=None, floor=62):
     r = Rule('C31-TEMPDEF', 'every temp node that the target assignments of a pattern read (which alternative of an OR pattern matched, sub-subjects, the length of a '
              'sequence, the **rest dict) is written by the comparison node of the same pattern - for every way of nesting a sub-pattern that keeps state between '
              'the two phases', floor)
@@ -392,6 +394,21 @@ class CFacts:
                 out.append((m.group(1), m.start()))
         return out
 
+    def internally_guarded(self, d, stack=()):
+        """None when every way in which d can raise ValueError lies behind a size test inside d (or inside the callee that raises); else the
+        reason.  A function that raises ValueError itself needs the guard of its caller."""
+        if 'PyExc_ValueError' in d.body:
+            return '%s raises ValueError itself' % d.name
+        if d.name in stack:
+            return 'recursive'
+        for callee, off in self.value_error_calls(d):
+            if self.guarded_by_size_test(d, off):
+                continue
+            why = self.internally_guarded(self.resolve(callee)[0], stack + (d.name,))
+            if why:
+                return '%s calls %s without a preceding `if (size < nKeys) return`; %s' % (d.name, callee, why)
+        return None
+
     def guarded_by_size_test(self, d, offset):
         """is the call at `offset` of d.body dominated by a terminating `if (size < n)`?"""
         int_params = {param_name(p) for p in d.params if re.search(r'\b(Py_ssize_t|int|long|size_t)\b', p) and '*' not in p and '[' not in p}
@@ -523,7 +540,11 @@ class Order:
 
 
 # ====================================================================================================== C31-DUPGUARD
-def rule_dupguard(ctx, sym=None, floor=20):
+# declared types of the subject that MatchMappingPatternNode.is_dict_type_check tells apart and that can hold a mapping
+SUBJECT_TYPES = [('object', {}), ('dict', {'is_pydict_type': True, 'is_builtin_type': True}), ('frozendict', {'is_pyfrozendict_type': True, 'is_builtin_type': True}),
+                 ('extension type', {'is_extension_type': True})]
+
+def rule_dupguard(ctx, sym=None, floor=68):
     r = Rule('C31-DUPGUARD', 'mapping patterns: a helper that can raise ValueError (run-time duplicate-key check) is reached only after the is-mapping test and a '
              'length-tested extraction helper evaluated true (CPython looks for duplicate keys while it takes the values out of a mapping that has at least as many '
              'items as the pattern has keys; any other subject just fails the case)', floor)
@@ -535,18 +556,19 @@ def rule_dupguard(ctx, sym=None, floor=20):
         for lits in itertools.product((True, False), repeat=nk):
             if all(lits):
                 continue            # only literal keys: duplicates are a compile-time error
-            for rest in (False, True):
+            for rest, (tlabel, tflags) in itertools.product((False, True), SUBJECT_TYPES):
                 keys = [lab.key(l) for l in lits]
                 values = [lab.capture('v0')] + [lab.value() for _ in range(nk - 1)]
                 m = lab.mapping(keys, values, rest='rest' if rest else None)
-                what = 'case {%s%s}' % (', '.join('%s: %s' % ('"lit"' if l else 'K.name', 'v0' if i == 0 else str(i)) for i, l in enumerate(lits)), ', **rest' if rest else '')
+                what = 'case {%s%s}%s' % (', '.join('%s: %s' % ('"lit"' if l else 'K.name', 'v0' if i == 0 else str(i)) for i, l in enumerate(lits)), ', **rest' if rest else '',
+                                          '' if tlabel == 'object' else ' on a subject declared as %s' % tlabel)
                 lab.run(m, 'validate_keys', [])
-                subj = lab.subject()
+                subj = lab.subject(**tflags)
                 lab.run(m, 'create_main_pattern_assignment_list', [subj, lab.env()])
                 tree, f_c = lab.run(m, 'get_comparison_node', [subj, None])
                 order = Order(lab)
                 order.go(tree, ())
-                inst = '%s.MatchMappingPatternNode.get_comparison_node:%s%s' % (MOD, ''.join('L' if l else 'N' for l in lits), '+rest' if rest else '')
+                inst = '%s.MatchMappingPatternNode.get_comparison_node:%s%s:%s' % (MOD, ''.join('L' if l else 'N' for l in lits), '+rest' if rest else '', tlabel)
                 kinds = {}
                 for call, name, guards in order.calls:
                     d, _ = facts.resolve(name)
@@ -564,34 +586,26 @@ def rule_dupguard(ctx, sym=None, floor=20):
                     has_map = any(facts.tests_mapping_flag(x) for x in est_d)
                     why_len = [facts.length_tested(x) for x in est_d if not facts.tests_mapping_flag(x) and x.name != d.name]
                     has_len = any(w is None for w in why_len)
-                    own = facts.value_error_calls(d) if 'PyExc_ValueError' not in d.body else []
-                    if own:
-                        # the check is called from inside this helper: it has to sit behind the helper's own size test
-                        has_len = all(facts.guarded_by_size_test(d, off) for _, off in own) and facts.length_tested(d) is None
+                    internal = facts.internally_guarded(d)
+                    if internal is None:
+                        # the check is called from inside this helper, behind the helper's own size test
+                        has_len = True
                     ckey = '%s.MatchMappingPatternNode.get_comparison_node:%s' % (MOD, name)
+                    # ... and not later than CPython: before any value taken out of the mapping is compared with its sub-pattern
+                    sub_subjects = {id(t) for t in (m.__dict__.get('subject_temps') or []) if lab.is_temp(t)}
+                    if any(i in sub_subjects for g in guards for i in temp_reads(lab, g)):
+                        seen.setdefault(ckey + ':after-values', (f_c.lineno, '`%s`: %s, which can raise ValueError("mapping pattern checks duplicate key"), is only evaluated after a value '
+                                        'sub-pattern matched (one of the tests known to have succeeded before it reads a sub-subject temp): `{K.a: 5, K.a: y}` with K.a present and '
+                                        'subject[K.a] != 5 fails the case silently where CPython raises ValueError (it checks the keys before it looks at any value)' % (what, name)))
                     if not has_map:
                         seen.setdefault(ckey + ':is-mapping', (f_c.lineno, '`%s`: %s, which can raise ValueError("mapping pattern checks duplicate key"), is evaluated before / independently '
                                         'of the is-mapping test (helpers known to have succeeded when it runs: %s): a subject that is no mapping at all (5, [1, 2], None) raises '
                                         'ValueError where CPython tries the next case' % (what, name, est or 'none')))
                     if not has_len:
-                        reasons = [w for w in why_len if w]
+                        reasons = [w for w in why_len if w] or ([internal] if 'PyExc_ValueError' not in d.body else [])
                         seen.setdefault(ckey + ':length', (f_c.lineno, '`%s`: %s, which can raise ValueError("mapping pattern checks duplicate key"), is evaluated although no helper that '
                                         'fails the case for len(subject) < number of keys has succeeded before it (helpers known to have succeeded: %s%s): a mapping with fewer items than the '
                                         'pattern has keys raises ValueError where CPython tries the next case' % (what, name, est or 'none', '; ' + reasons[0] if reasons else '')))
-    # the extraction helpers themselves: a duplicate check called from inside a helper sits behind that helper's size test
-    for d in facts.funcs.values():
-        if 'PyExc_ValueError' in d.body:
-            continue
-        for callee, off in facts.value_error_calls(d):
-            t = facts.resolve(callee)[0]
-            if t is None or 'duplicate key' not in t.body:
-                continue
-            found_check = True
-            key = '%s:%s:%s' % (S.CFILE, d.name, callee)
-            r.inst(key, sample='%s calls %s' % (d.name, callee))
-            if not facts.guarded_by_size_test(d, off) and facts.length_tested(d) is not None:
-                seen.setdefault(key, (d.line, '%s calls %s (ValueError for duplicate keys) on a path that is not behind an `if (size < nKeys) return 0`: too-short mappings raise '
-                                      'ValueError where CPython tries the next case' % (d.name, callee)))
     if not found_check:
         r.info('no helper that can raise ValueError is reachable from the comparison node of a mapping pattern: nothing to order (presence of the check is decided by C31-PAIR)')
     for ckey, (line, msg) in sorted(seen.items()):
@@ -704,7 +718,7 @@ def keyword_taint(d, sources, ms, npos_param, subj_param):
     return uniq
 
 
-def rule_selfkw(ctx, sym=None, floor=30):
+def rule_selfkw(ctx, sym=None, floor=36):
     r = Rule('C31-SELFKW', 'class patterns: the positional part (match-self decision, number of positional sub-patterns accepted, binding of the positional sub-subjects) does '
              'not depend on the keyword sub-patterns: the match_self argument of the positional helper is -1 or the _Py_TPFLAGS_MATCH_SELF flag of the class for every '
              'number of keyword sub-patterns, and inside the helper the keyword-dependent parameters only reach the duplicate-attribute check', floor)
